@@ -53,7 +53,7 @@ for _be, _bf in (("asm", ["-DFIBER_FAST_SWITCHING"]), ("uc", [])):
 SAN_ENV = {
     "ASAN_OPTIONS": "abort_on_error=0:detect_leaks=0:detect_stack_use_after_return=0:allocator_may_return_null=1:exitcode=66",
     "UBSAN_OPTIONS": "print_stacktrace=1:halt_on_error=1:exitcode=67",
-    "TSAN_OPTIONS": "halt_on_error=0:report_signal_unsafe=0:history_size=4:exitcode=0",
+    "TSAN_OPTIONS": "halt_on_error=0:report_signal_unsafe=0:report_thread_leaks=0:history_size=4:exitcode=0",
 }
 
 
@@ -256,6 +256,14 @@ def execute(run, binpath, tmp, idx):
     if run.variant == "tsan":
         np_, nt = tsan_payload_reports(stderr)
         run.tsan_payload, run.tsan_total = np_, nt
+        if nt and getattr(run, "tsan_rule", "payload") == "any":
+            # structures written purely with C11 atomics are TSan-clean on the unmodified tree: every report counts
+            m = re.search(r"WARNING: ThreadSanitizer: data race.*?#0 (\S+)", stderr, re.S)
+            run.outcome = "sanitizer"
+            run.san_key = "tsan:data-race:%s" % (m.group(1) if m else "?")
+            i = stderr.find("WARNING: ThreadSanitizer")
+            run.stderr_tail = stderr[i:i + 5000]
+            return
         if np_:
             run.outcome = "sanitizer"
             run.san_key = "tsan:payload-race"
